@@ -89,6 +89,8 @@ TABLE: List[Entry] = [
     ("R-SENTINEL", None, "returns-non-decision-domain", {"C01", "C02", "C04", "C09", "C16"}),
     ("R-SENTINEL", None, None, {"C04", "C16"}),
     ("R-OPTIONAL-ZERO", None, None, {"C01", "C02", "C03", "C13"}),
+    ("R-MODE-ARITH", None, "narrow-sum-compared", {"C15", "C16", "C19"}),
+    ("R-MODE-ARITH", None, None, {"C15"}),
     # ---- wake-up primitive ---------------------------------------------------------------------------------
     ("R-WAKEUP", None, None, {"C01", "C02", "C08"}),
     # ---- optimisation loop: which clauses are also termination conditions
